@@ -130,6 +130,20 @@ CLAIMED = {
         'never count infections; fixed: Measles exposed agents were also flagged infected.',
    technique='Coq exhaustive-check-with-soundness-proof over generated per-agent transition scripts + in-Coq replay of recorded method calls',
    design='5 C13'),
+ 'C20': dict(
+   text='Coq theorems about the delivery model whose window adjustment, end point, capacity test and vaccine factor are REGENERATED from interventions.py / sir.py: every routine time point '
+        'lies inside [start_year, end_year + 1) (inside [start_year, end_year] for dt >= 1), no grid point of the window is skipped, campaign points are the nearest grid points; the gate is '
+        'closed exactly outside the time points and never indexes past a coverage vector as long as the window; recipients = eligible agents whose draw is below the coverage (0 -> nobody, '
+        '1 -> everybody, monotone); annual coverage compounds back over a year (R); vaccination touches records and rel_sus of recipients only, and a recipient of a fully effective vaccine '
+        'is never a new case of the transmission kernel (composition with the C12 admissibility theorem); for EVERY history of a capacity-limited treatment the number treated per step is '
+        '<= capacity, the treated are eligible at that step and were accepted earlier or queued, are treated once and leave the queue, the queue is FIFO; Tx.administer changes only recipients '
+        'whose efficacy draw succeeded, per the product table. Real windows, vaccination/screening steps (with the recorded uniform draws), whole treat_num histories and Tx calls are '
+        'replayed in Coq; a per-step oracle checks eligibility, window, coverage, capacity and confinement against independently configured values.',
+   note='Trusted: Coq kernel, translator (shape pins on every delivery method), harness (class-level wrappers on the delivery classes, bernoulli.filter and Dist.rand). The annual-coverage '
+        'theorem is over R (standard real-number axioms). Dx.administer (diagnostic outcomes) and the all-or-nothing vaccine (np.random) are covered by the oracle only. Observations, not '
+        'violations: BaseTriage.step tests `self.sim.t in timepoints` and never delivers; campaign_screening/campaign_triage have no coverage_dist and raise on delivery. Fixed: routine window overrun.',
+   technique='Coq invariant/induction proofs over generated delivery formulas + in-Coq replay of recorded intervention steps and histories',
+   design='5 C20'),
 }
 
 checks = []
